@@ -1355,6 +1355,240 @@ theorem c05_chan_unchecked_variant_sends_after_close :
 
 end Chan
 
+/-! ### aggregated types: the buffer of `aggregate` between the reader's pop and the handler (`Model/C05Agg.lean`) -/
+namespace Agg
+
+/-- the invocation that is running, if any -/
+def cur (s : St) : List (Bool × List Nat) := match s.pc with | .handling a ms => [(a, ms)] | _ => []
+
+theorem aggs_append (a b : List Msg) : aggs (a ++ b) = aggs a ++ aggs b := by simp [aggs]
+theorem directs_append (a b : List Msg) : directs (a ++ b) = directs a ++ directs b := by simp [directs]
+
+theorem aggs_of_all (l : List Msg) (h : ∀ x ∈ l, direct x = false) : aggs l = l ∧ directs l = [] := by
+  constructor
+  · simp only [aggs]; apply List.filter_eq_self.mpr; intro x hx; simp [h x hx]
+  · simp only [directs]; apply List.filter_eq_nil_iff.mpr; intro x hx; simp [h x hx]
+
+structure Inv (s : St) : Prop where
+  order  : s.accepted = s.popped ++ s.queue
+  serial : s.started = s.finished ++ cur s
+  aggf   : aggs s.given ++ s.buf = aggs s.popped
+  dirf   : directs s.given = directs s.popped
+  bufagg : ∀ x ∈ s.buf, direct x = false
+  vals   : (s.started.map (·.2)).flatten = s.given.map (·.m)
+  size   : ∀ b ∈ s.started, b.1 = true → b.2.length = s.nch
+  small  : s.nch ≠ 0 → s.buf.length < s.nch
+
+theorem inv_init (k : Nat) : Inv { nch := k } := by
+  constructor <;> simp [cur, aggs, directs]
+  omega
+
+theorem step_nch (s s' : St) (a : Act) (hs : step s a = some s') : s'.nch = s.nch := by
+  cases a with
+  | accept x => simp only [step] at hs; split at hs <;> simp at hs <;> subst hs <;> rfl
+  | close => simp [step] at hs; subst hs; rfl
+  | reader =>
+    simp only [step] at hs
+    split at hs
+    · split at hs
+      · simp at hs; subst hs; rfl
+      · split at hs
+        · simp at hs; subst hs; rfl
+        · split at hs
+          · simp at hs; subst hs; rfl
+          · split at hs <;> simp at hs <;> subst hs <;> rfl
+    · simp at hs; subst hs; rfl
+    · split at hs <;> simp at hs; subst hs; rfl
+    · simp at hs
+
+theorem inv_step (s s' : St) (a : Act) (h : Inv s) (hs : step s a = some s') : Inv s' := by
+  obtain ⟨ho, hse, haf, hdf, hb, hv, hsz, hsm⟩ := h
+  cases a with
+  | accept x =>
+    simp only [step] at hs
+    split at hs <;> simp at hs <;> subst hs
+    · exact ⟨ho, hse, haf, hdf, hb, hv, hsz, hsm⟩
+    · exact ⟨by simp [ho], hse, haf, hdf, hb, hv, hsz, hsm⟩
+  | close => simp [step] at hs; subst hs; exact ⟨ho, hse, haf, hdf, hb, hv, hsz, hsm⟩
+  | reader =>
+    simp only [step] at hs
+    split at hs
+    · -- top
+      rename_i hpc
+      have hcur : cur s = [] := by simp [cur, hpc]
+      split at hs
+      · simp at hs; subst hs
+        exact ⟨ho, by simpa [cur, hpc] using hse, haf, hdf, hb, hv, hsz, hsm⟩
+      · split at hs
+        · simp at hs; subst hs
+          exact ⟨ho, by simpa [cur, hpc] using hse, haf, hdf, hb, hv, hsz, hsm⟩
+        · rename_i x q hq
+          split at hs
+          · -- dispatched at once
+            rename_i hd
+            simp at hs; subst hs
+            refine ⟨by simp [ho, hq], by simp [cur, hse, hpc], ?_, ?_, hb, ?_, ?_, hsm⟩
+            · simp only [aggs_append]
+              have : aggs [x] = [] := by simp [aggs, hd]
+              rw [this]; simpa using haf
+            · simp only [directs_append, hdf]
+            · simp [hv]
+            · intro b hb'
+              simp only [List.mem_append, List.mem_singleton] at hb'
+              rcases hb' with hb' | hb'
+              · exact hsz b hb'
+              · subst hb'; simp
+          · rename_i hd
+            have hd' : direct x = false := by simpa using hd
+            have hall : ∀ y ∈ s.buf ++ [x], direct y = false := by
+              intro y hy
+              simp only [List.mem_append, List.mem_singleton] at hy
+              rcases hy with hy | hy
+              · exact hb y hy
+              · subst hy; exact hd'
+            obtain ⟨ha1, ha2⟩ := aggs_of_all _ hall
+            split at hs
+            · -- the buffer is complete: handed over as it is
+              rename_i hfull
+              simp at hs; subst hs
+              refine ⟨by simp [ho, hq], by simp [cur, hse, hpc], ?_, ?_, by simp, ?_, ?_, ?_⟩
+              · simp only [aggs_append, List.append_nil]
+                have hx : aggs [x] = [x] := by simp [aggs, hd']
+                have hbf : aggs s.buf = s.buf := (aggs_of_all _ hb).1
+                rw [hx, hbf, ← haf]; simp
+              · simp only [directs_append, hdf]
+                have hx : directs [x] = [] := by simp [directs, hd']
+                have hbf : directs s.buf = [] := (aggs_of_all _ hb).2
+                rw [hx, hbf]; simp
+              · simp [hv]
+              · intro b hb'
+                simp only [List.mem_append, List.mem_singleton] at hb'
+                rcases hb' with hb' | hb'
+                · exact hsz b hb'
+                · subst hb'; intro _; simpa using hfull
+              · intro hn; exact Nat.pos_of_ne_zero hn
+            · rename_i hnf
+              simp at hs; subst hs
+              refine ⟨by simp [ho, hq], by simpa [cur, hpc] using hse, ?_, ?_, hall, hv, hsz, ?_⟩
+              · simp only [aggs_append]
+                have hx : aggs [x] = [x] := by simp [aggs, hd']
+                rw [hx, ← haf]; simp
+              · simp only [directs_append, hdf]
+                have hx : directs [x] = [] := by simp [directs, hd']
+                rw [hx]; simp
+              · intro hn
+                have := hsm hn
+                simp at hnf ⊢
+                omega
+    · -- handling
+      rename_i a ms hpc
+      simp at hs; subst hs
+      exact ⟨ho, by simp [cur, hse, hpc], haf, hdf, hb, hv, hsz, hsm⟩
+    · rename_i hpc
+      split at hs <;> simp at hs
+      subst hs
+      exact ⟨ho, by simpa [cur, hpc] using hse, haf, hdf, hb, hv, hsz, hsm⟩
+    · simp at hs
+
+theorem inv_run (as : List Act) (s : St) (h : Inv s) : Inv (run s as) := by
+  induction as generalizing s with
+  | nil => exact h
+  | cons a as ih =>
+    simp only [run]
+    split
+    · exact ih _ (inv_step _ _ _ h ‹_›)
+    · exact ih _ h
+
+theorem run_nch (as : List Act) (s : St) : (run s as).nch = s.nch := by
+  induction as generalizing s with
+  | nil => rfl
+  | cons a as ih =>
+    simp only [run]
+    split
+    · rw [ih, step_nch _ _ _ ‹_›]
+    · exact ih _
+
+/-- **order through the aggregation buffer**: under every schedule (any number of children, any senders, any
+interleaving of hand-overs with the reader), the children's messages of the aggregated type that were handed to
+the handler so far, followed by the ones waiting in the buffer, are exactly the ones the reader has taken, in the
+order in which the instance accepted them — no message of that type is given to the handler before one that was
+accepted earlier (inside a batch or across batches), none twice, none lost; and the messages dispatched one by one
+(from the parent, of plain types) keep their acceptance order among themselves. -/
+theorem c05_agg_order (k : Nat) (as : List Act) :
+    let s := run { nch := k } as
+    aggs s.given ++ s.buf = aggs s.popped ∧ aggs s.popped <+: aggs s.accepted ∧
+    directs s.given = directs s.popped ∧ directs s.popped <+: directs s.accepted := by
+  intro s
+  have h : Inv s := inv_run as _ (inv_init k)
+  refine ⟨h.aggf, ?_, h.dirf, ?_⟩
+  · rw [h.order, aggs_append]; exact List.prefix_append _ _
+  · rw [h.order, directs_append]; exact List.prefix_append _ _
+
+/-- **what the handlers are given, and one at a time**: the values of the invocations, one after the other, are the
+messages handed over in that order; every invocation for the aggregated type gets exactly as many messages as the
+node has children; and the invocations (batches and single messages alike) never overlap. -/
+theorem c05_agg_batches (k : Nat) (as : List Act) :
+    let s := run { nch := k } as
+    (s.started.map (·.2)).flatten = s.given.map (·.m) ∧ (∀ b ∈ s.started, b.1 = true → b.2.length = k) ∧
+    ∃ running, s.started = s.finished ++ running ∧ running.length ≤ 1 := by
+  intro s
+  have h : Inv s := inv_run as _ (inv_init k)
+  have hk : s.nch = k := run_nch as _
+  refine ⟨h.vals, ?_, cur s, h.serial, ?_⟩
+  · intro b hb ht; rw [← hk]; exact h.size b hb ht
+  · unfold cur; split <;> simp
+
+/-- **a complete round is never withheld**: on a node with children the buffer always holds fewer messages than the
+node has children — as soon as the reader has taken that many, they are with the handler. -/
+theorem c05_agg_complete_round_delivered (k : Nat) (hk : k ≠ 0) (as : List Act) :
+    (run { nch := k } as).buf.length < k := by
+  have h : Inv (run { nch := k } as) := inv_run as _ (inv_init k)
+  have hn : (run ({ nch := k } : St) as).nch = k := run_nch as _
+  have := h.small (by rw [hn]; exact hk)
+  rw [hn] at this; exact this
+
+/-- non-vacuity: two children, the second answers first, then a fast first child — batches [0 1] and [2 3] in the
+order of acceptance; a message from the parent in between is dispatched at once -/
+example :
+    let s := run { nch := 2 } [.accept ⟨true, some 1, 0⟩, .accept ⟨true, some 0, 1⟩, .reader, .reader, .accept ⟨true, some 0, 2⟩,
+      .accept ⟨true, none, 9⟩, .accept ⟨true, some 0, 3⟩, .reader, .reader, .reader, .reader, .reader, .reader, .reader]
+    s.started = [(true, [0, 1]), (false, [9]), (true, [2, 3])] ∧ s.buf = [] ∧ s.finished.length = 3 := by decide
+
+/-- the variant that completes a round "per child" (one message of every child, in the order of `Children()`, the
+surplus stays buffered): `aggregate` as the seeded change C05r7-A writes it -/
+def roundOf (k : Nat) (msgs : List Msg) : List Msg :=
+  (List.range k).filterMap fun c => msgs.find? (fun x => x.src == some c)
+
+def stepPerChild (s : St) : Act → Option St
+  | .reader => match s.pc, s.closing, s.queue with
+      | .top, false, x :: q =>
+        if direct x then step s .reader
+        else
+          let msgs := s.buf ++ [x]
+          let round := roundOf s.nch msgs
+          if round.length < s.nch then some { s with queue := q, popped := s.popped ++ [x], buf := msgs }
+          else some { s with queue := q, popped := s.popped ++ [x], buf := msgs.filter (fun y => !round.contains y),
+                             given := s.given ++ round, pc := .handling true (round.map (·.m)),
+                             started := s.started ++ [(true, round.map (·.m))] }
+      | _, _, _ => step s .reader
+  | a => step s a
+
+def runPerChild (s : St) : List Act → St
+  | [] => s
+  | a :: as => match stepPerChild s a with
+      | some s' => runPerChild s' as
+      | none => runPerChild s as
+
+/-- negation witness: in that variant the handler is given message 1 before message 0 (second child first), and with a
+fast child (c0, c0, c1, c1) message 2 is handled before message 1, which was accepted earlier -/
+theorem c05_agg_per_child_variant_reorders :
+    (runPerChild { nch := 2 } [.accept ⟨true, some 1, 0⟩, .accept ⟨true, some 0, 1⟩, .reader, .reader]).started = [(true, [1, 0])] ∧
+    (runPerChild { nch := 2 } [.accept ⟨true, some 0, 0⟩, .accept ⟨true, some 0, 1⟩, .accept ⟨true, some 1, 2⟩,
+      .accept ⟨true, some 1, 3⟩, .reader, .reader, .reader, .reader, .reader, .reader]).started = [(true, [0, 2]), (true, [1, 3])] := by
+  decide
+
+end Agg
+
 /-! ### who starts the reader, and registering an instance twice (`Model/C05Reg.lean`) -/
 namespace Reg
 
